@@ -31,7 +31,10 @@ TRUSTED = ["hand-written model of StepAddress / RnAndModify / RnAddress (lean/Te
            "Mathlib.Tactic.IntervalCases / SplitIfs (proof automation only; kernel-checked)"]
 ASSUMPTIONS = []
 PREFIXES = ["modr", "bitrev", "load_mod", "load_step", "movd", "movp", "mov_Rn", "mov_Register_Rn", "mov2", "mova",
-            "exchange", "alm_Alm_Rn", "alb_Alb_Imm16_Rn", "tstb_Rn", "movs_Rn", "movr_Rn", "exp_Rn", "mul_", "max2", "min2"]
+            "exchange", "alm_Alm_Rn", "alb_Alb_Imm16_Rn", "tstb_Rn", "movs_Rn", "movr_Rn", "exp_Rn", "mul_", "max2", "min2",
+            # every handler that takes an address-register operand, whatever its family: the property is about the
+            # address every such instruction uses, not only about the helpers
+            r"~_(Rn|RnOld|ArRn[12]|ArpRn[12]|R0123|R45|MemR7Imm16|MemR7Imm7s)(_|$)"]
 
 
 def step_line(unit, addr, step, dmod, cmd, stp16, m, br, mod, stepx, stepx0, epi, epj):
